@@ -34,11 +34,11 @@ func VerifDiffMatch(have, want string) string { return ztest.DiffMatch(have, wan
 
 // VerifHooks are the callbacks the monitors install. Point is called at named
 // yield points (n carries a point-specific number, e.g. bytes read); Send is
-// called at the start of every channel send with locked=true when shared.mu
-// could not be acquired at that moment.
+// called at the start of every channel send with a probe that reports whether
+// shared.mu is free at the moment it is called.
 type VerifHooks struct {
 	Point func(name string, n int)
-	Send  func(locked bool)
+	Send  func(lockFree func() bool)
 }
 
 var verifHooks atomic.Value // *VerifHooks
@@ -56,9 +56,11 @@ func verifSend(w *shared) {
 	if h == nil || h.Send == nil {
 		return
 	}
-	locked := !w.mu.TryLock()
-	if !locked {
-		w.mu.Unlock()
-	}
-	h.Send(locked)
+	h.Send(func() bool {
+		if w.mu.TryLock() {
+			w.mu.Unlock()
+			return true
+		}
+		return false
+	})
 }
